@@ -1,4 +1,6 @@
 import GrVerif.Proofs.Loader
+import GrVerif.Proofs.PassLoad
+import GrVerif.Proofs.LoadedPass
 import GrVerif.Props.C13
 import GrVerif.Props.C14
 /-!
@@ -9,6 +11,14 @@ reject – without a single read or write outside the bytes it was given"):
 * the sfnt container as a file face reads it (`FileFace` constructor, `TtfUtil::GetTableInfo`, the bounds test of
   `FileFace::get_table_fn`): `file_face_total` – a table that is handed out lies inside the file;
 * `Pass::readRanges` (the glyph → column map of a pass): `pass_ranges_total`;
+* the layout half of `Pass::readPass` (the 40-byte header, the tests on its numbers, the walk over the variable-length arrays
+  and the three code pointers): `pass_layout_total` – no read outside the pass for any bytes, and an accepted layout places the
+  range records, rule map, start states, sort keys, pre-context lengths, code offset arrays, transition table and the three code
+  blocks inside the pass (`LayoutOK`), which is what `readRanges`, `readRules`, `readStates` and the code loader start from
+  (`ranges_after_layout`); error codes and the header size are regenerated from `Error.h` / `Pass.cpp` (`Gen/Err.lean`);
+* `Pass::readStates` and the rule map of `Pass::readRules`: `pass_states_total`, `pass_rulemap_total`; together with
+  `pass_ranges_total` they give the pass-engine model's `TablesWF` (`accepted_pass_has_wellformed_tables`), the hypothesis
+  under which the matcher provably never indexes outside a table (`C02.matcher_stays_inside_its_tables`);
 * cmap subtables: once `CheckCmapSubtable4/12` accepted a subtable, every lookup stays inside it
   (`C13.lookup4_in_bounds`, `C13.lookup12_in_bounds`, re-exported);
 * compressed tables: `Face::Table::decompress` and the LZ4 decoder never read or write outside their buffers and a table is
@@ -39,7 +49,41 @@ theorem range_ending_at_numGlyphs_refused (ng nc first col : Nat) (ranges : List
   simp only [Nat.zero_add, h1, h2, h3]
   rw [if_pos (by omega)]
 
+/-- **the layout half of `Pass::readPass`**, for every byte string, sub-table base and collision set-up -/
+theorem pass_layout_total (b : List Nat) (base : Nat) (collOK : Bool) :
+    ∃ r, readPassLayout b base collOK = .ok r ∧ ∀ L, r = .ok L → LayoutOK b L := readPassLayout_total b base collOK
+
+/-- the range records `readRanges` is then given lie inside the pass: the hypothesis of `pass_ranges_total` is what the layout
+established -/
+theorem ranges_after_layout (b : List Nat) (L : PassLayout) (h : LayoutOK b L) :
+    6 * L.hdr.numRanges ≤ ((b.drop L.arr.ranges).take (L.hdr.numRanges * 6)).length := by
+  have := h.arr.ranges
+  simp only [List.length_take, List.length_drop]
+  omega
+
+/-- **`Pass::readStates`** on an accepted layout: in bounds, and the accepted tables are what `runFSM` needs – start states
+and transitions are state numbers, every success state's rule range lies inside the rule map -/
+theorem pass_states_total (b : List Nat) (L : PassLayout) (h : LayoutOK b L) :
+    ∃ r, readStates b L = .ok r ∧ ∀ T, r = .ok T → TablesOK L T := readStates_total b L h
+
+/-- the rule map read at the end of `Pass::readRules`: in bounds, every accepted entry names a rule -/
+theorem pass_rulemap_total (b : List Nat) (L : PassLayout) (h : LayoutOK b L) :
+    ∃ r, readRuleMap b L = .ok r ∧ ∀ es, r = .ok es → es.length = L.arr.numEntries ∧ ∀ e ∈ es, e < L.hdr.numRules :=
+  readRuleMap_total b L h
+
+/-- **from the loader to the matcher**: the pass-engine model's view of an accepted pass (`toPassT`) has well-formed state
+tables, so `Pass::runFSM` never indexes outside `m_cols`, `m_transitions` or `m_states` on it (C02 re-exports the run-time half) -/
+theorem accepted_pass_has_wellformed_tables (b : List Nat) (L : PassLayout) (hL : LayoutOK b L) (cols : List Nat)
+    (hc : ColsOK L.hdr.numColumns cols) (T : PassTables) (hT : TablesOK L T) (es : List Nat) (rules : Array Pass.Rule) :
+    Pass.TablesWF (toPassT L cols T es rules) := loaded_tables_wf b L hL cols hc T hT es rules
+
 /-! ### non-vacuity -/
+/-- the second pass of `tests/fonts/small.ttf` (119 bytes at offset 215 of its Silf sub-table) is accepted -/
+def smallPass : List Nat := [0, 5, 2, 0, 0, 1, 0, 0, 0, 0, 1, 44, 0, 0, 1, 44, 0, 0, 1, 45, 0, 0, 0, 0, 0, 3, 0, 2, 0, 1, 0, 2, 0, 2, 0, 2, 0, 1, 0, 0, 0, 3, 0, 3, 0, 0, 0, 5, 0, 5, 0, 1, 0, 0, 0, 1, 0, 0, 0, 0, 0, 0, 0, 2, 0, 10, 0, 0, 0, 0, 0, 1, 0, 0, 0, 33, 0, 1, 0, 0, 0, 0, 0, 2, 0, 0, 27, 30, 0, 1, 255, 38, 2, 1, 0, 35, 17, 41, 6, 0, 35, 8, 41, 7, 0, 35, 9, 44, 6, 0, 35, 3, 44, 7, 0, 35, 4, 25, 49]
+example : (match readPassLayout smallPass 215 false with | .ok (.ok L) => (L.hdr.numRules, L.hdr.numStates, L.arr.numGlyphs, L.codes.endp) | _ => (0, 0, 0, 0)) = (1, 3, 6, 119) := by decide +kernel
+/-- cut short, the same pass is refused (the walk would run off the end) -/
+example : (match readPassLayout (smallPass.take 100) 215 false with | .ok (.error e) => e | _ => 0) = Gen.Err.E_BADPASSLENGTH := by decide +kernel
+
 example : openFile [0, 1, 0, 0, 0, 1, 0, 0, 0, 0, 0, 0, 0x53, 0x69, 0x6c, 0x66, 0, 0, 0, 0, 0, 0, 0, 28, 0, 0, 0, 2, 7, 9] =
     .ok (some { fileLen := 30, header := [0, 1, 0, 0, 0, 1, 0, 0, 0, 0, 0, 0], dir := [0x53, 0x69, 0x6c, 0x66, 0, 0, 0, 0, 0, 0, 0, 28, 0, 0, 0, 2] }) := by decide
 example : readRanges 4 2 [0, 1, 0, 2, 0, 1] 1 = .ok (some [0xFFFF, 1, 1, 0xFFFF]) := by decide
